@@ -460,9 +460,15 @@ class _Optimizers(_Algorithm):
             1199-1205.
 
         """
-        y, baseline_func, _, method_kws, _ = self._setup_optimizer(
+        y, baseline_func, _, method_kws, fit_object = self._setup_optimizer(
             data, method, [polynomial], method_kwargs, False
         )
+        if fit_object is self:
+            # the polynomial order changes between the fits, so use a separate object to not
+            # modify this object's cached Vandermonde matrix while other threads may be using it
+            baseline_func = getattr(
+                self._override_x(self.x, new_sort_order=self._sort_order), method.lower()
+            )
         sort_weights = weights is not None
         weight_array = _check_optional_array(self._size, weights, check_finite=self._check_finite)
         if poly_order is None:
